@@ -1023,7 +1023,16 @@ fn check_writer_histories(c: &mut Case, t: &Table, m: &Meta, schema: &Schema, sr
 }
 
 fn check_table(c: &mut Case, t: &Table, m: &Meta, rng: &mut Rng, rs_lane: &mut Rng, file: &Path) {
-    let enc = encode(t, m.layout, rng);
+    let mut enc = encode(t, m.layout, rng);
+    // every fifth table lives in a file that goes on behind the string block (padding / appended bytes): the header says where
+    // the table ends, and every access path has to take it from there
+    let tail = if rs_lane.below(5) == 0 { 1 + rs_lane.usize(64) } else { 0 };
+    for k in 0..tail {
+        enc.bytes.push(if k % 3 == 0 { 0 } else { b'a' + (k % 26) as u8 });
+    }
+    if tail > 0 {
+        c.count("tables|file-longer-than-table", 1);
+    }
     let n = t.recs.len();
     c.nontrivial = n > 0;
     // ---- what this case contains
@@ -1170,7 +1179,7 @@ fn check_table(c: &mut Case, t: &Table, m: &Meta, rng: &mut Rng, rs_lane: &mut R
         }
     }
     let block = Arc::new(eager_rs.string_block().clone());
-    if block.data() != &enc.bytes[enc.bytes.len() - enc.sb_len..] {
+    if block.data() != &enc.bytes[enc.bytes.len() - tail - enc.sb_len..enc.bytes.len() - tail] {
         c.violate("string-block-ne-file|eager", "RecordSet::string_block() differs from the file's string block", json!({}));
     }
 
